@@ -69,6 +69,22 @@ public:
       data = &nullData;
     }
 
+    Variant& operator=(const Variant& other)
+    {
+      if(&other != this)
+      {
+        if(other.data->ref)
+        {
+          Atomic::increment(other.data->ref);
+          clear();
+          data = other.data;
+        }
+        else
+          clear();
+      }
+      return *this;
+    }
+
     Type getType() const {return data->type;}
     bool isNull() const {return data->type == nullType;}
 
